@@ -389,18 +389,41 @@ def mbox_concurrent_worker(bdir, tier, lo, hi):
             n = rng.choice([3000, 20000, 60000])
             body = (b"message %d of run %d line\n" % (i, idx)) * (n // 30) + rng.choice([b"", b"partial"])
             bodies.append(body)
+        # in half of the runs one delivery meets a failing fsync/write: it must roll back ONLY its own bytes
+        # (its call index is taken from a solo run of the same message on a scratch mailbox)
+        faulty, plan = None, None
+        if idx % 2 == 1:
+            faulty = rng.randrange(k)
+            E.msgfile = E.root + "/msgx"
+            E.clearlog()
+            E.run(bodies[faulty], b"s%d@x.test" % faulty, "./Scratchbox", trace="m")
+            ref = [e for e in shim.read_log(E.log) if "n2" in e and e["c"] in ("fsync", "write")]
+            if ref:
+                tgt = ref[-1] if rng.random() < 0.6 else rng.choice(ref)
+                plan = "qmail-local:%d:fail=EIO" % tgt["n2"]
+            E.clearlog()
         # separate message files: start all, then wait
         for i, body in enumerate(bodies):
             E.msgfile = E.root + "/msg%d" % i
-            pids.append(E.run(body, b"s%d@x.test" % i, "./Mailbox", wait=False, trace="ml", role="ql%d" % i))
+            pids.append(E.run(body, b"s%d@x.test" % i, "./Mailbox", wait=False, trace="ml", role="ql%d" % i,
+                              plan=plan if i == faulty else None))
         sts = [E.wait(p) for p in pids]
         res.evaluations += 1
-        if any(s is None or not (os.WIFEXITED(s) and os.WEXITSTATUS(s) == 0) for s in sts):
+        ok_idx = [i for i in range(k) if not (i == faulty and plan)]
+        if any(sts[i] is None or not (os.WIFEXITED(sts[i]) and os.WEXITSTATUS(sts[i]) == 0) for i in ok_idx):
             res.violate("C12/mbox/concurrent-delivery-failed", "statuses %r" % [stat_str(s) for s in sts], {})
             continue
+        if plan and faulty is not None:
+            res.counters.inc("concurrent_runs_with_one_failing_delivery")
+            if not (sts[faulty] is not None and os.WIFEXITED(sts[faulty]) and os.WEXITSTATUS(sts[faulty]) == 111):
+                res.violate("C12/mbox/concurrent-failing-delivery-exit", "the delivery with the injected fault ended with %s" % stat_str(sts[faulty]), {"plan": plan})
         data = open(E.home + "/Mailbox", "rb").read()
         got = sorted(x[1] for x in mbox_read(data))
-        want = sorted(b"Return-Path: <s%d@x.test>\nDelivered-To: user-ext@local.test\n" % i + expected_stored(bodies[i]) for i in range(k))
+        want = sorted(b"Return-Path: <s%d@x.test>\nDelivered-To: user-ext@local.test\n" % i + expected_stored(bodies[i]) for i in ok_idx)
+        if plan and got != want:
+            res.violate("C12/mbox/rollback-damaged-another-delivery", "after one of %d concurrent deliveries failed and rolled back, the reader finds %d "
+                        "messages instead of the %d that reported success" % (k, len(got), len(want)), {"plan": plan, "sizes": [len(b_) for b_ in bodies]})
+            continue
         if got != want:
             res.violate("C12/mbox/concurrent-deliveries-interleaved", "the reader does not find the %d delivered messages intact (finds %d)" % (k, len(got)),
                         {"sizes": [len(b_) for b_ in bodies]})
